@@ -664,7 +664,7 @@ func TestVerifWire(t *testing.T) {
 		out.emit(vCheckBytes(mt, tb[:], "empty-body", nil))
 		// crafted TLV extensions behind the fixed fields of a valid encoding
 		if k := vExtStart(bases[0]); k > 0 {
-			ncraft := vCases(36, 800)
+			ncraft := vCases(24, 800)
 			for i := 0; i < ncraft; i++ {
 				rr := r.fork(uint64(500000 + i))
 				base := bases[rr.intn(len(bases))]
@@ -816,6 +816,7 @@ func vCheckFail(b []byte, full bool, mut string, code int) vRow {
 		return row
 	}
 	row["len1"] = len(b1)
+	row["reenc"] = whx(b1)
 	m2, err, pan := vDecFail(b1, full)
 	if pan != "" {
 		row["panic"] = "decode(reenc): " + pan
